@@ -588,6 +588,46 @@ def s2_session_loop(ctx):
     b = ctx.facts.body('smartcalc::SmartCalc::execute_session')
     ctx.fn(b)
     pushes = [(bid, t) for bid, t, m, recv in collection_writes(b) if m == 'push' and render(recv).endswith('.lines')]
+    # the result may also be assembled at the end: `ExecuteResult { status: true, lines }` from a local list that was started
+    # with `vec![first]` and pushed to; the construction of that first element counts as the first push
+    built = [(i, st) for i in b.normal_blocks for st in b.blocks[i]['stmts'] if st['k'] == 'assign' and st['rv'] == 'aggr' and st.get('adt') == 'smartcalc::ExecuteResult::ExecuteResult']
+    from ..facts import opplace
+    list_locals = set()
+    for i, st in built:
+        names = st.get('fields') or []
+        k = names.index('lines') if 'lines' in names else 1
+        e = strip(b.expr(st['ops'][k]))
+        p_ = opplace(st['ops'][k])
+        if p_ is not None and not p_['proj']:
+            ds = b.defs().get(p_['local'], [])
+            if len(ds) == 1 and ds[0][1] == 'stmt' and ds[0][2]['rv'] == 'use' and opplace(ds[0][2]['ops'][0]) and not opplace(ds[0][2]['ops'][0])['proj']:
+                list_locals.add(opplace(ds[0][2]['ops'][0])['local'])
+            list_locals.add(p_['local'])
+    init_pushes = []
+    if list_locals:
+        for bid, t, m, recv in collection_writes(b):
+            r0 = strip(recv)
+            if m == 'push' and any(('var', l, b.names.get(l)) == r0 or (r0[0] in ('call', 'phi', 'undef', 'arg') and False) for l in list_locals):
+                pushes.append((bid, t))
+        for bid, t in b.calls(r'Vec::<.*>::push$'):
+            p0 = opplace(t['args'][0])
+            if p0 is None or (bid, t) in pushes:
+                continue
+            for d in b.defs().get(p0['local'], []):
+                if d[1] == 'stmt' and d[2]['rv'] == 'ref':
+                    q = opplace(d[2]['ops'][0])
+                    if q and not q['proj'] and q['local'] in list_locals:
+                        pushes.append((bid, t))
+        # `vec![x]`: an array literal written through the fresh box, then turned into the list
+        for l in sorted(list_locals):
+            for d in b.defs().get(l, []):
+                if d[1] == 'call' and d[2].get('callee') and re.search(r'into_vec|box_assume_init_into_vec', d[2]['callee']['path']):
+                    for i in b.normal_blocks:
+                        for st in b.blocks[i]['stmts']:
+                            if st['k'] == 'assign' and st['rv'] == 'aggr' and st.get('adt') == 'array' and st['lhs']['proj'] and (b.dominates(i, d[0]) or i == d[0]):
+                                for o in st['ops']:
+                                    init_pushes.append((i, {'args': [None, o], 'loc': st['loc']}))
+    pushes = pushes + init_pushes
     nexts = [bid for bid, t in b.calls(r'Session::next_line$')]
     if not pushes or len(nexts) != 1:
         ctx.finding('S2', 'execute_session/shape', 'execute_session has %d push sites and %d next_line sites; expected at least one push and one next_line' % (len(pushes), len(nexts)), site=b.loc)
@@ -627,7 +667,9 @@ def s2_session_loop(ctx):
         else:
             ctx.finding('S2', 'execute_session/%s' % key, bad, site=loc)
     st = field_sets(b, 'smartcalc::ExecuteResult.status')
-    if st and all(v == 'True' for i, v in st) and all(any(b.dominates(i, p_) for i, v in st) for p_ in P):
+    if built and list_locals and not st and all(render(b.expr(s_['ops'][(s_.get('fields') or ['status']).index('status') if 'status' in (s_.get('fields') or []) else 0])) == 'True' for i_, s_ in built):
+        ctx.ok('S2', 'the result that carries the slots is built with status = true', 'dominance', site=b.loc)
+    elif st and all(v == 'True' for i, v in st) and all(any(b.dominates(i, p_) for i, v in st) for p_ in P):
         ctx.ok('S2', 'status = true before the first slot', 'dominance', site=b.loc)
     else:
         ctx.finding('S2', 'execute_session/status', 'status is not set to true before the first line is pushed', site=b.loc)
